@@ -300,6 +300,10 @@ def run(rep):
                         rep.check(okp and okv and oks, "LOCKSTEP", "LOCKSTEP/push/%s/%s" % (bucket, label), branch["sp"],
                                   "%s member: one push of MatchType::%s(text) to %s and one push of the same text to %s" % (label, kind, want_ctx, want_nd), str(tgt))
         rep.check(npairs == 8, "LOCKSTEP", "LOCKSTEP/push-pairs", pm.sp, "eight lockstep push pairs (4 buckets x 2 case classes)", str(npairs))
+        allowed = {"push", "is_empty", "len", "into_iter", "build", "next"}
+        for vec in ("needles", "context", "ineedles", "icontext"):
+            other = sorted({n["fn"].split("::")[-1] for n in walk(pm.body) if n.get("k") == "Call" and n.get("fn") and n.get("args") and any(show(a) == vec for a in n["args"])} - allowed - {"AhoCorasick"})
+            rep.check(not other, "LOCKSTEP", "LOCKSTEP/only-pushed/" + vec, pm.sp, "`%s` is only pushed to, measured and consumed (no dedup/sort/remove that would break the alignment)" % vec, str(other))
         # regex buckets
         for n in walk(pm.body):
             if n.get("k") == "For" and show(n["iter"]) == "IntoIterator::into_iter(regex)":
@@ -357,18 +361,18 @@ def run(rep):
         last_else = cur
         def test_name(c):
             c = peel(c)
-            s = show(c)
-            m = re.fullmatch(r"let Option::Some\(\$s\) = <impl str>::strip_prefix\(string, (.+)\)", s)
+            s = str(show(c))
+            m = re.fullmatch(r"let Option::Some\(\$s\) = <impl str>::strip_prefix\(string, (['\"])(.+)\1\)", s)
             if m:
-                return "prefix:" + m.group(1)
-            m = re.fullmatch(r"let Option::Some\(\$s\) = <impl str>::strip_suffix\(string, (.+)\)", s)
+                return "prefix:" + m.group(2)
+            m = re.fullmatch(r"let Option::Some\(\$s\) = <impl str>::strip_suffix\(string, (['\"])(.+)\1\)", s)
             if m:
-                return "suffix:" + m.group(1)
-            if s == "PartialEq::eq(string, *)":
+                return "suffix:" + m.group(2)
+            if s == 'PartialEq::eq(string, "*")':
                 return "is:*"
-            if s == "(<impl str>::starts_with(string, *) && <impl str>::ends_with(string, *))":
+            if s == "(<impl str>::starts_with(string, '*') && <impl str>::ends_with(string, '*'))":
                 return "wrapped:*"
-            if "starts_with(string, \")" in s and "ends_with(string, ')" in s:
+            if "starts_with(string, '\"')" in s and "ends_with(string, \'\'\')" in s:
                 return "quoted" + (":len>=2" if "(<impl str>::len(string) Ge 2)" in s else ":UNGUARDED")
             return "?" + s[:50]
         names = [test_name(c["cond"]) for c in chain]
